@@ -65,23 +65,58 @@ var concUnfoldOpts2 = gotype.Unfolders(
 	},
 )
 
-func unfUserDoc(u *gotype.Unfolder, doc []byte) (res string) {
+type cuHolder struct {
+	P *cuNorm
+	Q cuNorm
+	L *cuLevel
+}
+
+// kind selects the target variable: r = the record, n = a cuNorm itself (a user-handled type as
+// TOP-LEVEL target), h = a struct reaching cuNorm / cuLevel through pointers, l = a cuLevel, p = a cuPair
+func unfUserDoc(u *gotype.Unfolder, kind byte, doc []byte) (res string) {
 	defer func() {
 		if r := recover(); r != nil {
 			res = "panic"
 		}
 	}()
 	var rec cuRecord2
-	if err := u.SetTarget(&rec); err != nil {
+	var n cuNorm
+	var h cuHolder
+	var l cuLevel
+	var pr cuPair
+	var target interface{}
+	show := func() string { return "" }
+	switch kind {
+	case 'n':
+		target, show = &n, func() string { return fmt.Sprint(n.V) }
+	case 'h':
+		target, show = &h, func() string {
+			p, lv := "nil", "nil"
+			if h.P != nil {
+				p = fmt.Sprint(h.P.V)
+			}
+			if h.L != nil {
+				lv = fmt.Sprint(int(*h.L))
+			}
+			return fmt.Sprintf("%s,%d,%s", p, h.Q.V, lv)
+		}
+	case 'l':
+		target, show = &l, func() string { return fmt.Sprint(int(l)) }
+	case 'p':
+		target, show = &pr, func() string { return fmt.Sprint(pr) }
+	default:
+		target, show = &rec, func() string { return cuPrint(&rec) }
+	}
+	if err := u.SetTarget(target); err != nil {
 		return "seterr"
 	}
 	p := json.NewParser(u)
 	err := p.Parse(doc)
 	if err != nil {
 		u.Reset()
-		return fmt.Sprintf("err|%s", cuPrint(&rec))
+		return fmt.Sprintf("err|%s", show())
 	}
-	return fmt.Sprintf("ok|%s", cuPrint(&rec))
+	return fmt.Sprintf("ok|%s", show())
 }
 
 func cuPrint(r *cuRecord2) string {
@@ -103,13 +138,17 @@ func opUnfUser(args []string) string {
 		return "err:new"
 	}
 	for i, d := range docs {
+		kind := byte('r')
+		if len(d) > 2 && d[1] == ':' {
+			kind, d = d[0], d[2:]
+		}
 		doc := mustHex(d)
-		a := unfUserDoc(u, doc)
+		a := unfUserDoc(u, kind, doc)
 		f, err := gotype.NewUnfolder(nil, concUnfoldOpts2)
 		if err != nil {
 			return "err:new"
 		}
-		b := unfUserDoc(f, doc)
+		b := unfUserDoc(f, kind, doc)
 		if a == "panic" || b == "panic" {
 			return fmt.Sprintf("panic@%d", i)
 		}
@@ -129,14 +168,31 @@ func genUnfUser(r *Rand, tier string, emit func(string)) {
 		`{"exp":"12"}`, `{"exp":"zz"}`, `{"name":"n","unknown":{"a":[1,{"b":2}]},"norm":{"v":7}}`, `{"name":`, `{"norm":{"v":`, `{"ns":[{"v":5},`, `[1,2]`, `{}`, `null`,
 		`{"norm":{"v":100},"pn":{"v":100}}`, `{"norm":{"v":101}}`, `{"tail":[1,2,3],"name":"t"}`, `{"norm":5}`, `{"pn":[1]}`, `{"ns":{"v":1}}`,
 	}
+	// documents for the other target kinds (kind prefix)
+	kinded := []string{
+		"n:" + hx([]byte(`{"v":250}`)), "n:" + hx([]byte(`{"v":-3}`)), "n:" + hx([]byte(`{"v":7}`)), "n:" + hx([]byte(`{"v":`)), "n:" + hx([]byte(`5`)),
+		"h:" + hx([]byte(`{"p":{"v":250},"q":{"v":300},"l":"high"}`)), "h:" + hx([]byte(`{"p":{"v":-1}}`)), "h:" + hx([]byte(`{"q":{"v":-1}}`)),
+		"h:" + hx([]byte(`{"p":null,"l":"bogus"}`)), "h:" + hx([]byte(`{"l":"low"}`)),
+		"l:" + hx([]byte(`"medium"`)), "l:" + hx([]byte(`"nope"`)), "l:" + hx([]byte(`1`)),
+		"p:" + hx([]byte(`[1,2]`)), "p:" + hx([]byte(`[1]`)), "p:" + hx([]byte(`{"a":1}`)),
+	}
 	n := tierN(tier, 600, 10000)
 	for i := 0; i < n; i++ {
 		k := 2 + r.Intn(5)
 		var ds []string
 		for j := 0; j < k; j++ {
-			ds = append(ds, hx([]byte(Pick(r, pool))))
+			if r.P(45) {
+				ds = append(ds, Pick(r, kinded))
+			} else {
+				ds = append(ds, hx([]byte(Pick(r, pool))))
+			}
 		}
 		emit("unf-user " + strings.Join(ds, ";"))
+	}
+	for _, a := range kinded {
+		for _, b := range kinded {
+			emit("unf-user " + a + ";" + b + ";" + a)
+		}
 	}
 	// every ordered pair
 	for _, a := range pool {
